@@ -1830,8 +1830,7 @@ package hermes
 //@ func SoilFileData.BulkDensityClassToDensity
 //@   serves C19
 //@   requires slot: 0 <= i && i < len(soildata.BULK) && i < len(soildata.LD)
-//@   requires class: 1 <= soildata.LD[i] && soildata.LD[i] <= 5
-//@   ensures admissible: 1.1 <= soildata.BULK[i] && soildata.BULK[i] <= 1.85
+//@   ensures admissible: 1 <= soildata.LD[i] && soildata.LD[i] <= 5 ==> 1.1 <= soildata.BULK[i] && soildata.BULK[i] <= 1.85
 //@   ensures others: forall(j, 0, len(soildata.BULK), j != i ==> soildata.BULK[j] == old(soildata.BULK[j]))
 
 // C11  the configuration object that receives the overrides of ONE batch line is owned by this call (a local of
@@ -2014,3 +2013,35 @@ package hermes
 //@ func radia
 //@   serves C09
 //@   before stmt "REFLC := .08": assert[C09] effectiveday: DLE > 0 && amax > 0
+
+// CSV soil reader, one horizon record (C15: the stone content of the file is percent - the layer parameters are scaled by
+// 1 - stone fraction, which must stay positive; C19: every horizon gets a bulk density - the explicit value of the file
+// or, when the cell is empty or the column absent, the density of its class; C20: the level of the soil file is used
+// exactly when the configuration says so)
+//@ region LoadSoilCSV#horizon from "soildata.BART[i] = tokens[header[texture]]" to "soildata.STEIN[i] = ValAsFloat(tokens[header[stone]]"
+//@   serves C15, C19
+//@   opaque VerifyAndCorrectTexture SoilFileData.cNSetup
+//@   requires slot: 0 <= i && i < 10
+//@   ensures[C15] stonepercent: soildata.STEIN[i] == ufreal("number", tokens[header[stone]])/100
+//@   ensures[C19] density: 1 <= soildata.LD[i] && soildata.LD[i] <= 5 ==> soildata.BULK[i] == ufreal("number", tokens[header[bulkdensity]]) || (1.1 <= soildata.BULK[i] && soildata.BULK[i] <= 1.85)
+//@   return-ensures errorpath: !isnil(result1)
+//@ region LoadSoilCSV#gwsource between "soildata.WURZMAX = int(ValAsInt(tokens[header[rootdepth]]" and "soildata.DRAIDEP = int(ValAsInt(tokens[header[drainagedepth]]"
+//@   serves C20
+//@   ensures configured: soildata.useGroundwaterFromSoilfile == withGroundwater
+//@   ensures untouched: !withGroundwater ==> unchanged(soildata.GRHI, soildata.GRLO, soildata.GRW, soildata.GW)
+//@   return-ensures errorpath: !isnil(result1)
+
+// C10 / C16  the crop rotation reader goes through the WHOLE (shared) rotation file: the lines of the simulated field need
+// not be one contiguous block (a regional file kept season by season is read completely, every entry of the field is
+// scheduled)
+//@ region Input#rotwhole from "for SCHLAG, ROtoken, valid := NextLineInut(hSchlag, scannerRotation, splitLine); valid;" to "for SCHLAG, ROtoken, valid := NextLineInut(hSchlag, scannerRotation, splitLine); valid;"
+//@   serves C10, C16
+//@   opaque NextLineInut ValAsFloat ValAsInt DateConverter$1 dueng LineInut HermesSession.Open GlobalVarsMain.ToCropType
+//@   ghost var more bool = true
+//@   after call NextLineInut: ghost more = res2
+//@   ensures whole: !more
+//@   return-ensures errorpath: !isnil(result0)
+//@ loop Input@"for SCHLAG, ROtoken, valid := NextLineInut(hSchlag, scannerRotation, splitLine); valid;"
+//@   invariant last: more == valid
+//@ loop Input@"for ok := SCHLAG == g.PKT; ok; ok = SCHLAG == g.PKT && valid { SLFIND++"
+//@   invariant last: more == valid
